@@ -44,6 +44,9 @@ type change struct {
 }
 
 type history struct {
+	// hot: characteristics whose ids, written without the dot, read like the ids of another one (1.19 and 11.9);
+	// histories on a bridge prefer them
+	hot   map[int]bool
 	r     *vf.Run
 	n     int
 	rnd   *rand.Rand
@@ -359,6 +362,17 @@ func (h *history) pickChar(pred func(i int, c *chr) bool, preferSubscribed bool)
 	}
 	if len(all) == 0 {
 		return -1
+	}
+	if len(h.hot) > 0 && h.rnd.Intn(100) < 45 {
+		var hs []int
+		for _, i := range all {
+			if h.hot[i] {
+				hs = append(hs, i)
+			}
+		}
+		if len(hs) > 0 {
+			return hs[h.rnd.Intn(len(hs))]
+		}
 	}
 	if preferSubscribed {
 		p := h.rnd.Intn(100)
@@ -939,15 +953,44 @@ func runHistory(r *vf.Run, n int, ops int) []string {
 	pool := []string{"bulb", "outlet", "thermostat"}
 	rnd.Shuffle(len(pool), func(i, j int) { pool[i], pool[j] = pool[j], pool[i] })
 	kinds := pool[:1+rnd.Intn(3)]
-	f, err := startFixture(r.WorkDir(), fmt.Sprintf("%08d", 10000000+rnd.Intn(80000000)), kinds, 0, stored)
+	nExtra := 0
+	if n%3 == 2 {
+		// a bridge: 12..14 accessories, the first one with instance ids up to about 30, so that ids have two digits on
+		// both sides of the dot (1.19 and 11.9, 1.28 and 12.8 are different characteristics)
+		kinds = nil
+		for k, m := 0, 11+rnd.Intn(3); k < m; k++ {
+			kinds = append(kinds, pool[(k+rnd.Intn(2))%3])
+		}
+		nExtra = 16
+		r.Count("histories_on_a_bridge_with_two_digit_ids", 1)
+	}
+	f, err := startFixture(r.WorkDir(), fmt.Sprintf("%08d", 10000000+rnd.Intn(80000000)), kinds, nExtra, stored)
 	if err != nil {
 		r.Inconclusive(fmt.Sprintf("history %d: fixture did not start: %v", n, err))
 		return nil
 	}
 	defer f.stop()
 	h.f = f
+	if nExtra > 0 {
+		seen := map[string][]int{}
+		for i, c := range f.chars {
+			k := fmt.Sprintf("%d%d", c.AID, c.IID)
+			seen[k] = append(seen[k], i)
+		}
+		h.hot = map[int]bool{}
+		for _, is := range seen {
+			if len(is) > 1 {
+				for _, i := range is {
+					h.hot[i] = true
+				}
+			}
+		}
+		r.Count("characteristics_with_ids_that_read_like_another_one", len(h.hot))
+	}
 	r.Count("transports_started", 1)
-	r.Distinct("accessory_set", strings.Join(f.accs, "+"))
+	if len(f.accs) <= 4 {
+		r.Distinct("accessory_set", strings.Join(f.accs, "+"))
+	}
 	r.Distinct("controllers(total/pre-stored)", fmt.Sprintf("%d/%d", nCtrl, nStored))
 	maxConns := 5
 	for len(h.log) < ops && h.aborted == "" {
